@@ -9,6 +9,9 @@ claimed = {
  "C15": dict(text="Lean theorem callFunct_eq_spec: for every signature with distinct parameter names, every preset dictionary and every positional/keyword split, the model of call_funct equals the declarative rule specCall (caller's value, else preset for declared parameters, else default; no undeclared key; errors only from the caller's own arguments); corollaries preset_rule and no_new_errors; proved counterexample for the pre-fix code. Tied to the code by running the real call_funct on exec-generated functions (3000+ cases per quick run) and a block executor with init_function on real workers.",
              note=COMMON_NOTE + "CPython's binding rule for positional-or-keyword parameters is modelled (Preset.bind) and checked against real calls; *args/**kwargs/keyword-only signatures and bound methods are outside the quantifier.",
              technique="Lean 4 proof (refinement of call_funct model to a declarative spec) + differential correspondence", ref="6/C15"),
+ "C17": dict(text="Lean theorem one_reply_each: for every finite request sequence over {init, call (any outcome, with or without presets), shutdown, unknown request} the worker's reply transcript equals one reply per reply-bearing request up to and including the first shutdown, in order, each computed with the presets in effect; corollaries reply_count, nothing_after_ack, init_silent_and_error_continues. The submitted functions are a parameter of the model, so the theorem covers all callables. Tied to interactive_serial.main by driving the real worker loop over a real zmq PAIR socket (in-thread and as a subprocess) on generated sequences and comparing transcripts with Wire.serve.",
+             note=COMMON_NOTE + "zmq PAIR as a reliable FIFO; silence after init observed by a short poll and by the position of later replies; an init function that raises is outside the alphabet.",
+             technique="Lean 4 proof (list induction over request sequences) + transcript correspondence on the real worker", ref="6/C17"),
  "C16": dict(text="Lean theorems srun_exact / mpiexec_exact / parse_roundtrip (all naturals, all strings, all extra-argument lists inside the stated domain) about the hand-written model Cmd.lean, checked by the kernel; the model is tied to spawner.py/communication.py/backend.py by a differential run (generators, spawner classes through interface_bootup with Popen recorded, parse_arguments) and the Lean SPEC parser is evaluated on the implementation's own argv to turn a difference into a failing input.",
              note=COMMON_NOTE + "The SPEC grammar of srun/mpiexec in Launcher.lean (no launcher installed). Extra arguments of the form '--name value' are outside the theorem's domain (raw argv correspondence only).",
              technique="Lean 4 proof (round-trip theorem against a SPEC parser) + differential correspondence", ref="6/C16"),
